@@ -9,7 +9,7 @@ META = {
              'list of the specification; signature = (record length, #objects, sorted payload length classes, '
              'payload kinds); non-trivial when a payload is empty, shorter than 8 bytes or spans several segments'),
     'required_obs': {'quick': ['c16-empty', 'c16-short', 'c16-ends-01', 'c16-multi-segment', 'c16-multi-object',
-                               'c16-str', 'c16-bytearray', 'c16-payload', 'c16-same-named-objects', 'c16-identity-change-then-rewrite', 'c16-buffer-reused-by-caller', 'c16-via-data-attribute']},
+                               'c16-str', 'c16-bytearray', 'c16-payload', 'c16-same-named-objects', 'c16-identity-change-then-rewrite', 'c16-buffer-reused-by-caller', 'c16-via-data-attribute', 'c16-several-no-format-sets']},
     'exhaustive_windows': {
         'quick': ['payload lengths 0..16 x name lengths 1..4 (single payload)'],
         'thorough': ['payload lengths 0..40 x name lengths 1..10 (single payload)',
@@ -95,9 +95,16 @@ def run_case(case):
         shared_name = gen.name(r, 'NFSAME', r.choice([6, 12, 40]))
         if same:
             obs['c16-same-named-objects'] = obs.get('c16-same-named-objects', 0) + 1
+        multi_set = (not same) and nobj > 1 and r.random() < 0.5     # the objects live in several NO-FORMAT sets
         for j in range(nobj):
             sp['ops'].append(gen.nf_op(shared_name if (same and (j == 0 or r.random() < 0.7)) else gen.name(r, f'NF{j}', r.choice([3, 4, 5, 12, 40])),
                                        **({'consumer_name': 'CN%d' % j} if r.random() < 0.5 else {})))
+            if multi_set:
+                sn = [None, 'NF-SET-B', 'NF-SET-C'][j % 3] if j < 3 else r.choice([None, 'NF-SET-B', 'NF-SET-C'])
+                if sn:
+                    sp['ops'][-1]['set_name'] = sn
+        if multi_set:
+            obs['c16-several-no-format-sets'] = obs.get('c16-several-no-format-sets', 0) + 1
         npay = r.choice([0, 1, 2, 5, 12, 40])
         classes = set()
         kinds = set()
